@@ -1677,6 +1677,9 @@ pub fn tree_liveness(seed: u64, worker: usize, slot: &Slot) {
     let stall_bytes: Option<u64> = o.iter().find(|(k, _)| *k == "--l0-write-stall-threshold-bytes").and_then(|(_, v)| v.parse().ok());
     // tables with overlapping key ranges, built before the threads start
     let n_clients = rng.range(1, 3) as usize;
+    // from a tower, more often several clients at once: two ingests held back at the same moment
+    // is what tells "wake every waiter" from "wake one" (seeded change C20-f)
+    let n_clients = if tower && trng.chance(2, 3) { 3 + trng.usize_below(2) } else { n_clients };
     let mut plans: Vec<Vec<PathBuf>> = Vec::new();
     let mut total = 0;
     for c in 0..n_clients {
@@ -1723,9 +1726,14 @@ pub fn tree_liveness(seed: u64, worker: usize, slot: &Slot) {
     }
     let mut handles = Vec::new();
     let mof: Option<usize> = o.iter().find(|(k, _)| *k == "--max-open-files").and_then(|(_, v)| v.parse().ok());
+    // From a tower the clients that have a second table meet before they ingest it, so that
+    // several ingests arrive at a full level 0 together.
+    let meeting = plans.iter().filter(|f| f.len() >= 2).count();
+    let barrier = if tower && meeting >= 2 { Some(Arc::new(shuttle::sync::Barrier::new(meeting))) } else { None };
     for files in plans {
         let t = Arc::clone(&tree);
         let slot3 = Arc::clone(slot);
+        let barrier = barrier.clone();
         handles.push(thread::spawn(move || {
             let note = |t: &Arc<LsmTree>| {
                     // Structural note for finding F-C20-4: the compaction that relieves level 0 takes
@@ -1745,12 +1753,24 @@ pub fn tree_liveness(seed: u64, worker: usize, slot: &Slot) {
                         }
                     }
             };
-            for f in files {
+            let meets = files.len() >= 2;
+            for (fi, f) in files.into_iter().enumerate() {
+                if fi == 1 {
+                    if let Some(b) = barrier.as_ref() {
+                        b.wait();
+                    }
+                }
                 note(&t);
                 if let Err(e) = t.ingest(&f) {
                     let e = format!("{e}");
                     if e.contains("too-many-open-files") {
                         // an explicit error is a return; liveness is about calls that never return
+                        if fi == 0 && meets {
+                            // the others are not left waiting for this client
+                            if let Some(b) = barrier.as_ref() {
+                                b.wait();
+                            }
+                        }
                         return;
                     }
                     violation("ingest-error", e);
